@@ -378,6 +378,16 @@ pub enum InitResult<P: Payload> {
     Success { peer_payload: P, is_initiator: bool },
 }
 
+fn algorithm_rank(algo: &'static Algorithm) -> u8 {
+    if algo == &AES_128_GCM {
+        1
+    } else if algo == &AES_256_GCM {
+        2
+    } else {
+        3
+    }
+}
+
 pub struct InitState<P: Payload> {
     node_id: NodeId,
     salted_node_id_hash: SaltedNodeIdHash,
@@ -555,7 +565,16 @@ impl<P: Payload> InitState<P> {
                     .find(|(a2, _)| a1 == a2)
                     .map(|(_, s2)| (*a1, if s1 < s2 { *s1 } else { *s2 }))
             })
-            .max_by(|(_, s1), (_, s2)| if s1 < s2 { cmp::Ordering::Less } else { cmp::Ordering::Greater });
+            .max_by(|(a1, s1), (a2, s2)| {
+                if s1 < s2 {
+                    cmp::Ordering::Less
+                } else if s1 > s2 {
+                    cmp::Ordering::Greater
+                } else {
+                    // equal speeds: break the tie by algorithm identity so that both ends agree regardless of list order
+                    algorithm_rank(a1).cmp(&algorithm_rank(a2))
+                }
+            });
         if let Some(algo) = algo {
             debug!("Init: best algorithm is {:?} with speed {}", algo.0, algo.1);
             Ok(Some(algo))
